@@ -36,7 +36,7 @@ fn meta() -> Meta {
     Meta {
         id: "C03",
         level: "model_checking",
-        rule: "for every harness (write mode x output x naming x threads x records; see bounds) every schedule with <= 2 (quick) / 3 (thorough) preemptions is executed on the real code under the token-passing scheduler, scheduling points = state mutex, channel send/receive, buffer pool, stream locks, thread start/exit/join, timer ticks and the file-system calls of rotation and cleanup; states = choice points visited, transitions = scheduling decisions; non-trivial = schedule with at least one preemption; the final output must split into exactly the expected multiset of intact lines with per-thread order; plus harnesses with record sizes on both sides of the buffer / message capacity, and two harnesses with the state mutex left un-modelled (real blocking detected from the kernel thread state); plus harnesses with a thread calling reopen_output() while two others log through rotations",
+        rule: "for every harness (write mode x output x naming x threads x records; see bounds) every schedule with <= 2 (quick) / 3 (thorough) preemptions is executed on the real code under the token-passing scheduler, scheduling points = state mutex, channel send/receive, buffer pool, stream locks, thread start/exit/join, timer ticks and the file-system calls of rotation and cleanup; states = choice points visited, transitions = scheduling decisions; non-trivial = schedule with at least one preemption; the final output must split into exactly the expected multiset of intact lines with per-thread order; plus harnesses with record sizes on both sides of the buffer / message capacity, and two harnesses with the state mutex left un-modelled (real blocking detected from the kernel thread state); plus harnesses with a thread calling reopen_output() while two others log through rotations; harnesses whose first thread logs recursively; harnesses with a thread calling reset_flw onto the same file (scheduling point after every release of the state lock)",
         assumptions: vec![
             "sequential consistency at hook granularity: flexi_logger forbids unsafe code, so every shared access of the unchanged code goes through a hooked primitive".into(),
             "an access that a code change adds without synchronisation between two hooks is invisible to the scheduler; the auxiliary free-running stress pass (8 threads x 300 records per output kind; sampling, reported separately) is there for that and decides nothing on its own".into(),
